@@ -310,6 +310,12 @@ def part_wire(ck):
         if x:
             ck.cov["samples"].append({"law": x})
 
+    # a defect that breaks the generated value of a type (not one field) makes the case of every field of that type
+    # deviate: more than three fields of one type are reported under one key wire:value-roundtrip:<kind>:<type>:*
+    vr_fields = {}
+    for d in devs:
+        if d[0] == "value-roundtrip" and int(d[4]) - 1 < len(recs):
+            vr_fields.setdefault((d[1], d[2]), set()).add(recs[int(d[4]) - 1].get("fld"))
     classes = {}
     for d in devs:
         what, kind, t, op, line = d[0], d[1], d[2], d[3], int(d[4])
@@ -318,6 +324,8 @@ def part_wire(ck):
         if what == "value-roundtrip" and line - 1 < len(recs):
             # the value-boundary part names the field: wire:value-roundtrip:fail:16406:InvalidOnionPayload.Type
             key = "wire:value-roundtrip:%s:%s:%s" % (kind, t, recs[line - 1].get("fld") or op)
+            if len(vr_fields.get((kind, t), ())) > 3:
+                key = "wire:value-roundtrip:%s:%s:*" % (kind, t)
         classes.setdefault(key, []).append((what, kind, t, op, line))
     wl["deviation_classes"] = {k: len(v) for k, v in classes.items()}
     for key, items in sorted(classes.items()):
@@ -326,9 +334,11 @@ def part_wire(ck):
         one = os.path.join(ck.out, "wire_failing_case.ndjson")
         core.write_ndjson(one, [rec])
         ops = sorted({i[3] for i in items})
-        ck.violation(key, "lnwire breaks law '%s' for %s %s on %d cases (operators %s); first: %s. Reproduce: "
+        flds = sorted({recs[i[4] - 1].get("fld", "") for i in items if i[4] - 1 < len(recs)} - {""})
+        ck.violation(key, "lnwire breaks law '%s' for %s %s on %d cases (operators %s%s); first: %s. Reproduce: "
                           "VERIF_SEED=%d, plan cell (%s,%s,%s,%s) rep %s" % (
-                              what, kind, t, len(items), ",".join(map(str, ops)), json.dumps(rec)[:600], ck.seed,
+                              what, kind, t, len(items), ",".join(map(str, ops)),
+                              "; fields " + ",".join(flds[:12]) if flds else "", json.dumps(rec)[:600], ck.seed,
                               kind, t, rec.get("op"), rec.get("pos"), rec.get("rep")),
                      files={"trace.ndjson": one})
 
